@@ -61,7 +61,7 @@ PROPS = {
     },
     'C14': {
         'modules': ['SE.Props.C14', 'SE.Gen.TieMapper', 'SE.Gen.TieSync'],
-        'streams': [{'component': 'mapper_c14', 'note_kinds': {'fresh'}}, {'component': 'mapperrace'}],
+        'streams': [{'component': 'mapper_c14', 'note_kinds': {'fresh'}}, {'component': 'mapperrace'}, {'component': 'binary', 'confirm': True, 'seed_off': 900}],
         'level': 'proof',
         'trusted_base': ["sync.RWMutex semantics (GetMapping and the swap are atomic steps)", "yaml.v2"],
         'assumptions': [],
@@ -131,7 +131,7 @@ PROPS = {
     },
     'C19': {
         'modules': ['SE.Props.C19', 'SE.Gen.TieMapper'],
-        'streams': [{'component': 'pipe_c19', 'note_kinds': {'panic', 'gather'}}],
+        'streams': [{'component': 'pipe_c19', 'note_kinds': {'panic', 'gather'}}, {'component': 'checkconfig', 'confirm': True}],
         'level': 'proof',
         'trusted_base': ["client_golang v1.22.0 (vector constructors, child creation and its panics, counter/gauge/histogram/summary updates, Delete, Gather's family checks) and perks' Query fast path are modelled by hand from their sources (SE/Model/Registry.lean)", 'FNV-64 label-hash collisions assumed away', 'IEEE float64 = Lean Float in the driver; strconv.ParseFloat and regexp results shipped by the harness', 'yaml.v2 decodes the rendered configuration to the intended fields'],
         'assumptions': [],
